@@ -3,6 +3,7 @@ everything (pure and compiled builds) under the bounded complement."""
 import importlib
 import contracts.orderedset  # noqa: F401
 import contracts.identityset  # noqa: F401
+import contracts.lrucache  # noqa: F401
 from pyvc.contract import FUNCS
 from vlib.proof import run_proofs
 from vlib.bounded import run_bounded
